@@ -17,13 +17,18 @@ def check(run, P, ctx, traits):
     libty = set(BORROWED) | set(ctx.owned)
     ex = convexact.Exact(P, ctx)
     for im in P.impls:
-        mm = re.match(r'^<(.*) as (?:std|core)::cmp::(PartialEq|PartialOrd)<(.*)>>$', im['trait'] or '')
-        if not mm or mm.group(2) not in traits:
+        mm = re.match(r'^<(.*) as (?:std|core)::cmp::(PartialEq|PartialOrd|Ord)(?:<(.*)>)?>$', im['trait'] or '')
+        if not mm or mm.group(2) not in traits or im.get('auto_derived'):
             continue
-        A, Bt = strip_ref(im['self_ty']), strip_ref(mm.group(3))
-        if A not in libty or Bt not in libty or A == Bt:
+        A = strip_ref(im['self_ty'])
+        Bt = strip_ref(mm.group(3)) if mm.group(3) else A
+        if A not in libty or Bt not in libty:
             continue
-        fnn = 'eq' if mm.group(2) == 'PartialEq' else 'partial_cmp'
+        if A == Bt and A not in ctx.owned:
+            continue            # the same-type comparison of a borrowed type is the base case (key rules / cmpsem)
+        if mm.group(2) == 'PartialOrd' and A == Bt:
+            continue            # partial_cmp of one type is Some(cmp) (rule pcmp)
+        fnn = {'PartialEq': 'eq', 'PartialOrd': 'partial_cmp', 'Ord': 'cmp'}[mm.group(2)]
         b = keys.impl_fn(P, im, fnn)
         if b is None:
             continue
@@ -31,7 +36,7 @@ def check(run, P, ctx, traits):
         key = f'cross|{A}|{mm.group(2)}<{Bt}>'
         loc = f'{P.where(b)} {b["name"]}'
         r = terms.Terms(b).ret()
-        cm = re.match(r'^<(.*) as (?:std|core)::cmp::(PartialEq|PartialOrd)(?:<(.*)>)?>::(eq|partial_cmp)$', r[1]) if r[0] == 'call' else None
+        cm = re.match(r'^<(.*) as (?:std|core)::cmp::(PartialEq|PartialOrd|Ord)(?:<(.*)>)?>::(eq|partial_cmp|cmp)$', r[1]) if r[0] == 'call' else None
         T0 = strip_ref(cm.group(1)) if cm else None
         T1 = strip_ref(cm.group(3)) if cm and cm.group(3) else T0
         if not cm or T0 not in BORROWED or T1 not in BORROWED or cm.group(4) != fnn or len(r[2]) != 2 or r[1] == b['name']:
